@@ -217,3 +217,67 @@ Proof.
     destruct (probe (Z.to_nat M) [] 0%nat (top mod M)) eqn:Ep; [discriminate|].
     revert Ep. apply probe_total; [apply Z.mod_pos_bound; exact HM|exact H0].
 Qed.
+
+(* ---------------------------------------------------------------- the same path again: the same id *)
+(* once a path owns a slot, probing for it finds that slot again in every later table (bindings only accumulate) *)
+Lemma probe_stable fuel : forall t t2 p j0 j,
+  probe fuel t p j0 = Some j ->
+  Z.of_nat (length t) < M -> Z.of_nat (length t2) < M ->
+  (forall i q, lookup i t = Some q -> lookup i t2 = Some q) ->
+  lookup j t2 = Some p ->
+  probe fuel t2 p j0 = Some j.
+Proof.
+  induction fuel as [|f IH]; intros t t2 p j0 j H Ht Ht2 Hext Hj; cbn [probe] in *;
+    (destruct (M <=? Z.of_nat (length t)) eqn:E1; [apply Z.leb_le in E1; lia|]);
+    (destruct (M <=? Z.of_nat (length t2)) eqn:E2; [apply Z.leb_le in E2; lia|]);
+    destruct (lookup j0 t) as [q|] eqn:El.
+  - destruct (Nat.eqb q p) eqn:Eq; [|discriminate]. inversion H; subst j.
+    rewrite (Hext _ _ El), Eq. reflexivity.
+  - inversion H; subst j. rewrite Hj, Nat.eqb_refl. reflexivity.
+  - destruct (Nat.eqb q p) eqn:Eq.
+    + inversion H; subst j. rewrite (Hext _ _ El), Eq. reflexivity.
+    + rewrite (Hext _ _ El), Eq. eapply IH; eauto.
+  - inversion H; subst j. rewrite Hj, Nat.eqb_refl. reflexivity.
+Qed.
+
+Lemma assign_registered : forall l t js p h j,
+  assign t l = Some js -> Z.of_nat (length t + length l) < M ->
+  probe (Z.to_nat M) t p (h mod M) = Some j -> lookup j t = Some p ->
+  forall b i, nth_error l b = Some (p, h) -> nth_error js b = Some i -> i = j.
+Proof.
+  induction l as [|[p' h'] r IH]; intros t js p h j H Hlen Hpr Hown b i Hb Hi; cbn [assign] in H.
+  - destruct b; discriminate.
+  - destruct (add_job t p' h') as [[j' t']|] eqn:Ea; [|discriminate].
+    destruct (assign t' r) as [js'|] eqn:Er; [|discriminate]. inversion H; subst js; clear H.
+    cbn [length] in Hlen. assert (Ht : Z.of_nat (length t) < M) by lia.
+    destruct (add_job_bound _ _ _ _ _ Ht Ea) as (_ & _ & Hpers & Hl').
+    destruct b as [|b]; cbn [nth_error] in Hb, Hi.
+    + inversion Hb; subst p' h'. inversion Hi; subst i.
+      unfold add_job in Ea. rewrite Hpr in Ea. inversion Ea. reflexivity.
+    + assert (Ht' : Z.of_nat (length t') < M) by lia.
+      eapply (IH t' js' p h j Er); [lia| |apply Hpers; exact Hown|exact Hb|exact Hi].
+      eapply probe_stable; eauto.
+Qed.
+
+(* a path that is listed twice among the inputs of one run is ONE job: both occurrences get the same id *)
+Theorem assign_same_path : forall l t js a b p h ia ib,
+  assign t l = Some js -> Z.of_nat (length t + length l) < M -> (a < b)%nat ->
+  nth_error l a = Some (p, h) -> nth_error l b = Some (p, h) ->
+  nth_error js a = Some ia -> nth_error js b = Some ib -> ia = ib.
+Proof.
+  induction l as [|[p' h'] r IH]; intros t js a b p h ia ib H Hlen Hab Ha Hb Hia Hib; cbn [assign] in H.
+  - destruct a; discriminate.
+  - destruct (add_job t p' h') as [[j' t']|] eqn:Ea; [|discriminate].
+    destruct (assign t' r) as [js'|] eqn:Er; [|discriminate]. inversion H; subst js; clear H.
+    cbn [length] in Hlen. assert (Ht : Z.of_nat (length t) < M) by lia.
+    destruct (add_job_bound _ _ _ _ _ Ht Ea) as (_ & Hbound & Hpers & Hl').
+    destruct b as [|b]; [lia|]. cbn [nth_error] in Hb, Hib.
+    destruct a as [|a]; cbn [nth_error] in Ha, Hia.
+    + inversion Ha; subst p' h'. inversion Hia; subst ia.
+      assert (Ht' : Z.of_nat (length t') < M) by lia.
+      symmetry. eapply (assign_registered r t' js' p h j' Er); [lia| |exact Hbound|exact Hb|exact Hib].
+      unfold add_job in Ea. destruct (probe (Z.to_nat M) t p (h mod M)) as [j0|] eqn:Ep; [|discriminate].
+      inversion Ea; subst j0 t'. eapply probe_stable; [exact Ep|exact Ht|exact Ht'| |exact Hbound].
+      intros i q Hq. apply lookup_bind_persist. exact Hq.
+    + eapply (IH t' js' a b p h ia ib Er); eauto; lia.
+Qed.
